@@ -10,7 +10,6 @@ import (
 	"strconv"
 	"strings"
 	"time"
-	"unicode/utf8"
 
 	"mvdan.cc/sh/v3/syntax"
 	"mvdan.cc/sh/v3/syntax/typedjson"
@@ -276,20 +275,9 @@ func c07SpecSkip(st syntax.VerifLexState, op string) bool {
 	return false
 }
 
-// c07TieSkip: newLit with a multi-byte rune argument while p.bsp > len(p.bs) (after errPass or the
-// EOF hack) makes Go read stale bytes of readBuf through the capacity of p.bs; the model does not
-// keep the stale part of the array and reports a fault there, so the op is not generated.
-func c07TieSkip(st syntax.VerifLexState, op string) bool {
-	if op[0] != 'n' || st.Bsp <= st.Len {
-		return false
-	}
-	r := st.R
-	if op != "nc" {
-		n, _ := strconv.Atoi(op[1:])
-		r = rune(n)
-	}
-	return r >= 0x80 && r != syntax.VerifRuneEOF && r != syntax.VerifEscNewl
-}
+// c07TieSkip: nothing is skipped in the tie stream any more (newLit encodes its rune since cb62b3c and
+// no longer reads the buffer).
+func c07TieSkip(st syntax.VerifLexState, op string) bool { return false }
 
 // c07Run runs ops over (input, sched, eofWith) and renders the answer like the Lean driver.
 // In spec mode ops outside the protocol are dropped; the ops really executed are returned.
@@ -307,17 +295,6 @@ func c07Panicky(st syntax.VerifLexState, op string) bool {
 		return st.Bsp > st.Len && !st.ReadEOF && st.R != syntax.VerifRuneEOF
 	case 'e':
 		return st.R != syntax.VerifRuneEOF && st.R != syntax.VerifEscNewl && len(st.Lit) < st.W
-	case 'n':
-		r := st.R
-		if op != "nc" {
-			n, _ := strconv.Atoi(op[1:])
-			r = rune(n)
-		}
-		if r < 0x80 || r == syntax.VerifRuneEOF || r == syntax.VerifEscNewl {
-			return false
-		}
-		w := utf8.RuneLen(r)
-		return w < 0 || st.Bsp < w
 	}
 	return false
 }
@@ -491,14 +468,6 @@ func c07Ops(r *Rand, inputLen, padLen int, spec bool) []string {
 			switch op[0] {
 			case 'f':
 				continue // fill is internal to the primitives
-			case 'n':
-				if op == "nc" {
-					if !lastWasRune {
-						continue
-					}
-				} else if op != "n97" && op != "n0" && op != "n1114112" && op != "n1114113" {
-					continue
-				}
 			}
 		}
 		ops = append(ops, op)
